@@ -46,6 +46,18 @@ CLAIMED['C13'] = {
     'design': '§5 C13',
 }
 
+CLAIMED['C16'] = {
+    'text': 'Static: every f64::rem_euclid result is re-clamped against the modulus before use (half-open box, '
+            'idempotence); every exported insertion-by-location on DelaunayTriangulation passes coordinate '
+            'canonicalisation before the vertex can reach storage; the toroidal builder arms canonicalise, construct '
+            'from the canonicalised vertices and record the topology before Ok. Decides the wrapping-mode clauses '
+            'structurally; the periodic image-point mode is not decided.',
+    'note': 'Trusted: rustc MIR; the canonicalisation leaf is GlobalTopologyModel::canonicalize_point_in_place (any '
+            'impl); congruence modulo the period is arithmetic and not decided.',
+    'technique': 'post-guard value-flow + must-pass-through (dominance) over rustc MIR',
+    'design': '§5 C16',
+}
+
 NOT_APPLICABLE = {
     'C04': 'verdict is the sign of floating-point in-sphere determinants vs exact arithmetic (numerical); the only structural handle is a delegation shape that a correct re-implementation would break',
     'C10': 'correctness of point location is a sign pattern of orientation determinants along a walk (geometric); loop bound is covered under C19',
